@@ -29,7 +29,7 @@ PROPS = {
     'C08': {
         'units': ['unify', 'subst', 'replace'],
         'functions': ['substitution_set.rs::get_ground_term', 'substitution_set.rs::is_ground_variable', 'unifiable.rs::Unifiable::replace_variables'],
-        'oracles': {'unifiable.rs::Unifiable::replace_variables': 'c08_resolve', '*': 'c08_cycle'},
+        'oracles': {'unifiable.rs::Unifiable::replace_variables': 'c08_fn_answers', '#value': 'c08_resolve', '*': 'c08_cycle'},
         'not_covered': [
             "'resolving answers terminates' is proved for replace_variables (unit replace: decreases = size of the term's value under a solution of the bindings, then a rank along variable chains) under the statement's proviso "
             "'needs no occurs check' = the bindings have a finite solution (solvable) and variable chains end (acyclic, the invariant unify is proved to maintain); that unify preserves solvability is not proved (it does not: $X = f($X) succeeds)",
